@@ -44,6 +44,9 @@ def detector_spaces(tier: str, chains: bool = True) -> Iterator[Tuple[str, str, 
     yield from emit("rekey-to", "direct", spaces.layered(full, _addr_small("RekeyTo"), tier, chains=chains, l2_top_alpha=top, l2_size=None if q else 3))
     sh = A.shuffled(["txn RekeyTo", Z, "=="]) + A.shuffled(["txn Fee", "int 1000", ">"])
     yield from emit("rekey-to", "shuffle", spaces.layered(sh, sh[:2], tier, chains=False, l2_size=2, l3=False, max_subs=1))
+    # multi-way branches consuming a tracked condition (soundness only)
+    yield from emit("rekey-to", "shuffle", spaces.multiway(A.addr_atoms("RekeyTo") + A.fee_atoms((1000, 272001)) + A.kind_atoms("small")
+                                                         + A.size_atoms((2, 16)) + [["txn TypeEnum"], ["txn OnCompletion"], ["global GroupSize"]]))
     # loops that really iterate (counter conditions; soundness only)
     yield from emit("rekey-to", "shuffle", spaces.counted_loops(_addr_small("RekeyTo")[:3], tier))
     # can-close-account / can-close-asset
